@@ -24,6 +24,7 @@ type RefTx struct {
 	Refused map[string]codes.Code
 	before  map[string]model.Config
 	after   map[string]model.Config
+	devOps  map[string][]model.Op // what the transaction sends to each target's device when it is applied
 	prevIdx map[string]int
 }
 
@@ -145,6 +146,10 @@ func (r *Ref) Change(ops []model.Op) *RefTx {
 		r.notePast(t)
 		r.Stored[t] = cands[t]
 		r.CurIndex[t] = tx.Index
+		if tx.devOps == nil {
+			tx.devOps = map[string][]model.Op{}
+		}
+		tx.devOps[t] = opsFor(ops, t)
 		if c := refusalOf(opsFor(ops, t)); c != codes.OK {
 			tx.Refused[t] = c
 		} else {
@@ -209,6 +214,10 @@ func (r *Ref) RollbackOf(idx int) *RefTx {
 				rb = append(rb, model.Op{Kind: "delete", Target: t, Path: touched[k]})
 			}
 		}
+		if tx.devOps == nil {
+			tx.devOps = map[string][]model.Op{}
+		}
+		tx.devOps[t] = rb
 		if c := refusalOf(rb); c != codes.OK {
 			tx.Refused[t] = c
 		} else {
@@ -223,4 +232,25 @@ func (r *Ref) RollbackOf(idx int) *RefTx {
 		r.CurIndex[t] = tgt.prevIdx[t]
 	}
 	return tx
+}
+
+// ExpectedDevice folds, in log order, what every merged transaction sends to
+// target t, leaving out the transactions whose apply the SYSTEM recorded as
+// failed (failed[index]): "the stored configuration restricted to the
+// transactions whose apply did not fail".
+func (r *Ref) ExpectedDevice(t string, failed map[int]bool) model.Config {
+	d := model.Config{}
+	for _, tx := range r.Txs {
+		if tx.Outcome != "committed" || failed[tx.Index] {
+			continue
+		}
+		if ops, ok := tx.devOps[t]; ok {
+			if tx.IsRollback {
+				d.Apply(ops, nil)
+			} else {
+				d.Apply(ops, r.Schema)
+			}
+		}
+	}
+	return d
 }
